@@ -37,6 +37,15 @@ def file_only_cases(rng):
             c = hist_case(d, True, ops, ids="sepstr", src="corpus-separators")
             c["fileonly"] = True
             yield c
+    # hashtag-like ids ('#a', 'c#', '#'): written as they are and read back with another comment marker
+    for d in (0, 1):
+        for j in range(4):
+            ops = gen.random_history(rng, n_ops=rng.choice([3, 5, 8]), n_nodes=rng.choice([3, 5, 8]), p_reject=0.0, p_none=0.0, p_empty=0.0,
+                                     p_bulk=0.0, p_node=0.0, p_clear=0.0)
+            c = hist_case(d, True, ops, ids="hstr", src="corpus-hash-ids")
+            c["fileonly"] = True
+            c["comments"] = 37
+            yield c
 
 
 def file_only_judge(pid, case, directed, outs):
@@ -77,7 +86,7 @@ class C09:
         long_cases.append(hist_case(1, True, [["add", 1, 2, 0, 9100], ["add", 2, 1, 40, 45]], src="corpus-long"))
         import itertools as _it
         for c in _it.chain(long_cases, file_only_cases(rng), io_histories(tier, rng, n)):
-            c["io"] = [k % 4, (k // 4) % 4, (k // 16) % 2]   # target, delimiter, encoding: all 32 combinations cycle
+            c["io"] = [k % 4, (k // 4) % 12, (k // 48) % 2]   # target, delimiter, encoding: all 96 combinations cycle
             if c.get("fileonly"):
                 c["io"] = [k % 4, 1 + k % 3, 0]             # explicit non-blank delimiter, utf-8
             k += 1
@@ -96,7 +105,7 @@ class C09:
         L += [gen.op_line(0, op) for op in case["ops"]]
         if case.get("fileonly"):
             t, d, e = case["io"]
-            return L + ["pres 0 %d %d" % (lo, hi), "filert 0 0 2 %d %d %d" % (t, d, e), "pres 2 %d %d" % (lo, hi), "dump 2"]
+            return L + ["pres 0 %d %d" % (lo, hi), ("filert 0 0 2 %d %d %d %s" % (t, d, e, case.get("comments", ""))).rstrip(), "pres 2 %d %d" % (lo, hi), "dump 2"]
         L += ["pres 0 %d %d" % (lo, hi), "wsnap 0", "snaprt 0 1", "pres 1 %d %d" % (lo, hi)]
         t, d, e = case["io"]
         L += ["filert 0 0 2 %d %d %d" % (t, d, e), "pres 2 %d %d" % (lo, hi), "dump 2"]
@@ -105,9 +114,9 @@ class C09:
         L += [("rsnap 3 %d %d %s" % (case["cls"], len(rows), flat)).rstrip(), "pres 3 %d %d" % (lo, hi)]
         if case.get("ids", "int") == "int":
             # the exact text (model: DynetxModel/Text.lean) and the graph parsed back from it; correspondence only
-            L += ["textrt 0 0 4 %d" % d, "dump 4"]
+            L += ["textrt 0 0 4 %d" % (d % 4), "dump 4"]
         elif case.get("ids") in ("str", "dstr"):
-            L += [name_table_line(case, 0, 0, 4, d), "dump 4"]
+            L += [name_table_line(case, 0, 0, 4, d % 4), "dump 4"]
         return L
 
     @staticmethod
@@ -209,7 +218,7 @@ class C10:
                       for d, m in ((0, 620), (1, 2200))]
         import itertools as _it
         for c in _it.chain(long_cases, file_only_cases(rng), io_histories(tier, rng, n)):
-            c["io"] = [k % 4, (k // 4) % 4, (k // 16) % 2]
+            c["io"] = [k % 4, (k // 4) % 12, (k // 48) % 2]   # target, delimiter, encoding: all 96 combinations cycle
             if c.get("fileonly"):
                 c["io"] = [k % 4, 1 + k % 3, 0]
             c["log"] = random_log(rng, bool(c["cls"]))
@@ -223,7 +232,7 @@ class C10:
         L += [gen.op_line(0, op) for op in case["ops"]]
         if case.get("fileonly"):
             t, d, e = case["io"]
-            return L + ["pres 0 %d %d" % (lo, hi), "filert 1 0 2 %d %d %d" % (t, d, e), "pres 2 %d %d" % (lo, hi), "dump 2"]
+            return L + ["pres 0 %d %d" % (lo, hi), ("filert 1 0 2 %d %d %d %s" % (t, d, e, case.get("comments", ""))).rstrip(), "pres 2 %d %d" % (lo, hi), "dump 2"]
         L += ["pres 0 %d %d" % (lo, hi), "dump 0", "wint 0", "intrt 0 1", "pres 1 %d %d" % (lo, hi), "dump 1"]
         t, d, e = case["io"]
         L += ["filert 1 0 2 %d %d %d" % (t, d, e), "pres 2 %d %d" % (lo, hi), "dump 2"]
@@ -231,9 +240,9 @@ class C10:
         L += [("rint 3 %d %d %s" % (case["cls"], len(log), " ".join(" ".join(map(str, r)) for r in log))).rstrip(),
               "pres 3 -2 60", "dump 3"]
         if case.get("ids", "int") == "int":
-            L += ["textrt 1 0 4 %d" % d, "dump 4"]
+            L += ["textrt 1 0 4 %d" % (d % 4), "dump 4"]
         elif case.get("ids") in ("str", "dstr"):
-            L += [name_table_line(case, 1, 0, 4, d), "dump 4"]
+            L += [name_table_line(case, 1, 0, 4, d % 4), "dump 4"]
         return L
 
     @staticmethod
